@@ -47,6 +47,9 @@ def _repo_frame(text):
     # Miri: "inside `func` at /path/file.rs:L:C"
     for m in re.finditer(r"inside `([^`]+)` at ([^\s:]+\.rs)", text):
         frames.append((m.group(2), m.group(1)))
+    # Miri (newer): "   3: path::to::func\n        at file.rs:L:C"
+    for m in re.finditer(r"^\s*\d+: (.+?)\n\s+at ([^\s:]+\.rs):\d+", text, re.M):
+        frames.append((m.group(2), m.group(1)))
     # valgrind: "by 0x...: func (file.rs:123)" / "at 0x...: func (file.rs:123)"
     for m in re.finditer(r"(?:at|by) 0x[0-9A-Fa-f]+: (.+?) \(([^():]+\.rs):\d+\)", text):
         frames.append((m.group(2), m.group(1)))
@@ -82,7 +85,7 @@ def _miri_kind(text):
     kind = m.group(1)
     detail = m.group(2)
     detail = re.sub(r"alloc\d+", "alloc#", detail)
-    detail = re.sub(r"0x[0-9a-f]+", "0x#", detail)
+    detail = re.sub(r"0x[0-9a-f]+", "ADDR", detail)
     detail = re.sub(r"\d+", "#", detail)
     return kind, detail[:80]
 
